@@ -1,6 +1,8 @@
 //! World A driver: supervisor, workers, replay, evidence.
 
 mod c02;
+mod c03;
+mod c04;
 mod core;
 mod gen;
 mod loader;
@@ -21,6 +23,8 @@ use vcommon::{load_known_findings, run_seed, verif_dir, KnownFinding};
 fn prop_by_id(id: &str) -> Option<Box<dyn Prop>> {
     match id {
         "C02" => Some(Box::new(c02::C02)),
+        "C03" => Some(Box::new(c03::C03)),
+        "C04" => Some(Box::new(c04::C04)),
         _ => None,
     }
 }
@@ -57,7 +61,16 @@ fn main() {
             _ => harness_error("unknown subcommand"),
         })
         .unwrap();
-    let code = h.join().unwrap_or(2);
+    // A panic that reaches this point happened in harness code (panics inside
+    // a compilation are caught in run_job): that is a harness error, exit 2.
+    let code = match h.join() {
+        Ok(c) => c,
+        Err(_) => {
+            eprintln!("HARNESS-ERROR: harness panicked: {}", loader::last_panic());
+            println!("H harness panicked: {}", loader::last_panic());
+            2
+        }
+    };
     std::process::exit(code);
 }
 
@@ -257,6 +270,14 @@ fn cmd_check(args: &[String]) -> i32 {
     let kfs = load_known_findings(&format!("{}/known_findings.json", verif_dir()))
         .unwrap_or_else(|e| harness_error(&e));
     println!("SEED {seed} property={id} tier={} runs={total} workers={nworkers}", tier.name());
+    // replay files of earlier runs of this check are stale by definition
+    if let Ok(rd) = std::fs::read_dir(format!("{}/replays", verif_dir())) {
+        for e in rd.flatten() {
+            if e.file_name().to_string_lossy().starts_with(&format!("{id}-")) {
+                let _ = std::fs::remove_file(e.path());
+            }
+        }
+    }
 
     let bs = (total / (nworkers as u64 * 8)).clamp(1, 5000);
     let mut queue: VecDeque<(u64, u64)> = VecDeque::new();
@@ -273,6 +294,7 @@ fn cmd_check(args: &[String]) -> i32 {
     let mut raw: Vec<Violation> = vec![];
     let mut truncated = false;
     let mut aborts = 0u32;
+    let mut harness_msg: Option<String> = None;
 
     let assign = |w: &mut Worker, queue: &mut VecDeque<(u64, u64)>, stop: bool| {
         if stop {
@@ -307,7 +329,9 @@ fn cmd_check(args: &[String]) -> i32 {
         match msg {
             Msg::Line(wid, line) => {
                 let Some(w) = workers.get_mut(&wid) else { continue };
-                if let Some(rest) = line.strip_prefix("R ") {
+                if let Some(rest) = line.strip_prefix("H ") {
+                    harness_msg = Some(rest.to_string());
+                } else if let Some(rest) = line.strip_prefix("R ") {
                     w.last = rest.parse().ok();
                 } else if let Some(rest) = line.strip_prefix("V ") {
                     match serde_json::from_str::<Violation>(rest) {
@@ -323,6 +347,13 @@ fn cmd_check(args: &[String]) -> i32 {
             Msg::Eof(wid) => {
                 let Some(mut w) = workers.remove(&wid) else { continue };
                 let status = w.child.wait().ok();
+                if status.and_then(|s| s.code()) == Some(2) {
+                    harness_error(&format!(
+                        "a worker reported a harness error during run index {:?}: {}",
+                        w.last,
+                        harness_msg.clone().unwrap_or_default()
+                    ));
+                }
                 if let Some((st, c)) = w.batch {
                     // died inside a batch: the run announced last is the culprit
                     aborts += 1;
@@ -373,6 +404,17 @@ fn cmd_check(args: &[String]) -> i32 {
     }
     for (kid, (desc, n)) in &known_hit {
         println!("KNOWN-FINDING: property={id} {kid}: {desc} (hit {n} times)");
+    }
+    {
+        let mut classes: BTreeMap<(String, String), u64> = BTreeMap::new();
+        for v in &novel {
+            *classes.entry((v.oracle.clone(), v.signature.clone())).or_insert(0) += 1;
+        }
+        let mut cl: Vec<_> = classes.into_iter().collect();
+        cl.sort_by_key(|(_, n)| std::cmp::Reverse(*n));
+        for ((o, s), n) in cl.iter().take(25) {
+            println!("# class x{n}: oracle={o} signature=[{s}]");
+        }
     }
     // distinct classes first, minimised ones first
     novel.sort_by_key(|v| (!v.minimised, v.oracle.clone(), v.case.to_string().len()));
